@@ -79,7 +79,9 @@ DropEvents == MapSeq(UpTo(N), LAMBDA i : EvCdrop(i))
 Drop == DropWith(DropEvents)
 ChildPanic == PanicWith(DropEvents)
 
-Next == EnvNext \/ PollBegin \/ ScanStep \/ ChildAnswer \/ ChildPanic \/ Drop
+\* merge has no assertion: every input's state is None, nothing is polled, the answer is Pending (zero inputs: None)
+Repoll == RepollAnswers(IF N = 0 THEN "none" ELSE "pending")
+Next == EnvNext \/ PollBegin \/ ScanStep \/ ChildAnswer \/ ChildPanic \/ Drop \/ Repoll
 NextLive == Next \/ \E c \in Ch : OwedWake(c)
 Spec == Init /\ [][Next]_vars
 LiveSpec == Init /\ [][NextLive]_vars
